@@ -166,6 +166,10 @@ class ImageTransformer(SpatialTransformer):
         x = target.coords(align_corners=transform.align_corners(), flip=flip_coords, device=device)
         x = target.transform_points(x, axes=transform.axes(), to_grid=transform.grid())
         self.register_buffer("grid_coords", x.unsqueeze(0), persistent=False)
+        # Whether target grid points are regularly spaced points covering the domain of the transformation,
+        # in which case a dense vector field can be resized instead of being sampled at the grid points
+        domain = target.align_corners(transform.align_corners())
+        self._grid_coords_cover_domain = domain.same_domain_as(transform.grid())
 
     @property
     def sample(self) -> SampleImage:
@@ -206,7 +210,7 @@ class ImageTransformer(SpatialTransformer):
     ) -> Union[Tensor, Tuple[Tensor, Tensor], Dict[str, Union[Tensor, Grid]]]:
         r"""Sample batch of images at spatially transformed target grid points."""
         grid: Tensor = self.grid_coords
-        grid = self._transform(grid, grid=True)
+        grid = self._transform(grid, grid=self._grid_coords_cover_domain)
         if self._flip_coords:
             grid = grid.flip((-1,))
         return self._sample(grid, data, mask)
